@@ -216,7 +216,8 @@ def restyled_idents(enums):
 
 def soup_literals(rng, stem, k):
     base = stem + str(k)
-    pool = [base, base.lower(), base.upper(), base.swapcase(), base + 'x', 'é' + base, 'É' + base, 'Ω' + base.lower(), base.capitalize(), base[::-1] + '_', base + ' ', ' ' + base]
+    pool = [base, base.lower(), base.upper(), base.swapcase(), base + 'x', 'é' + base, 'É' + base, 'Ω' + base.lower(), base.capitalize(), base[::-1] + '_', base + ' ', ' ' + base,
+            '{{' + base + '}}', base + '}}{{']
     return pool
 
 
